@@ -51,9 +51,9 @@ def h(*parts) -> str:
 
 
 class Project:
-    def __init__(self, name, files, main, origin):
+    def __init__(self, name, files, main, origin, share=False):
         self.name = name  # directory /w/<name>
-        self.files = dict(files)  # rel -> text (schema files only)
+        self.files = files if share else dict(files)  # rel -> text (schema files only)
         self.main = main
         self.origin = origin
         self.extras = False  # helper files / links present
@@ -137,7 +137,15 @@ def generated_project(rng, name):
         text = text + "\n" + "\n".join(uses)
     mainfile = rng.choice(["main.bitproto", main.name + ".bitproto", "a.bitproto"])
     files[mainfile] = text
-    return Project(name, files, mainfile, "generated")
+    p = Project(name, files, mainfile, "generated")
+    if imports and rng.chance(0.6):
+        # a second top-level file next to the first, importing the same children under other aliases
+        other = compatible_edit(rng.sub("second"), text)
+        for _ in range(2):
+            other = _realias(rng.sub("second", _), other)
+        p.files["second_" + mainfile] = other.replace("proto %s" % main.name, "proto second_%s" % main.name, 1)
+        p.alt_mains = ["second_" + mainfile]
+    return p
 
 
 def template_project(rng, name):
@@ -196,11 +204,45 @@ def project_fs(p: Project, img):
     img["symlinks"]["/w/ln_" + p.name] = root
 
 
+def _realias(rng, text: str) -> str:
+    class _R:  # force the realias branch of compatible_edit
+        def __init__(self, r):
+            self.r = r
+
+        def weighted(self, pairs):
+            return "realias"
+
+        def __getattr__(self, k):
+            return getattr(self.r, k)
+
+    return compatible_edit(_R(rng), text)
+
+
 def compatible_edit(rng, text: str) -> str:
     """A small edit that usually keeps a schema valid but changes what is
     generated from it (and from files importing it)."""
     toks = mutate.tokenize(text)
-    kind = rng.weighted([("width", 4), ("append", 3), ("comment", 2), ("cap", 2), ("const", 2)])
+    kind = rng.weighted([("width", 4), ("append", 3), ("comment", 2), ("cap", 2), ("const", 2), ("realias", 3)])
+    if kind == "realias":
+        # the same child imported under another alias (qualifiers renamed consistently)
+        imps = list(re.finditer(r'^(\s*import\s+)(?:([A-Za-z_]\w*)\s+)?"([^"\n]*)"', text, re.M))
+        if imps:
+            mm = rng.choice(imps)
+            child = mm.group(3)
+            old = mm.group(2)
+            if old is None:
+                # no alias so far: the qualifier is the child's proto name; only add one when it is guessable
+                base = posixpath.splitext(posixpath.basename(child))[0]
+                old = base if re.search(r"\b%s\." % re.escape(base), text) else None
+                if old is None:
+                    return text
+            new = rng.choice(["al", "imp", "dep", "xx"]) + schemagen.letters(rng.below(26))
+            if re.search(r"\b%s\b" % re.escape(new), text):
+                return text
+            head = text[: mm.start()] + mm.group(1) + new + ' "' + child + '"'
+            rest = text[mm.end() :]
+            rest = re.sub(r"\b%s\." % re.escape(old), new + ".", rest)
+            return head + rest
     if kind == "width":
         idx = [i for i, t in enumerate(toks) if re.match(r"u?int\d+$", t) and not (i >= 2 and toks[i - 2] == ":")]
         if idx:
@@ -376,6 +418,12 @@ def gen_plan(seed: int, mode: str, scale: int = 1):
         projects.append(p)
     for p in projects:
         project_fs(p, img)
+    # a project directory may hold several top-level files: each is a view of the same files
+    for p in list(projects):
+        for alt in getattr(p, "alt_mains", []):
+            v = Project(p.name, p.files, alt, p.origin + ":second", share=True)
+            v.extras = p.extras
+            projects.append(v)
 
     keys = {}
     ops = []
